@@ -116,6 +116,8 @@ struct Stream {
     /// the transport fails reads on THIS stream with a connection-level error while the connection itself looks healthy
     /// to every other call (what h3-quinn's own InternalError, or a timeout first noticed on one stream, looks like)
     rx_conn_fault: Option<String>,
+    /// first byte the endpoint wrote on this stream (for its unidirectional streams: the stream type in its 1-byte form)
+    tx_first: Option<u8>,
     rx_w: Vec<Waker>,
     // h3 -> peer
     tx_fin: bool,
@@ -622,7 +624,16 @@ impl SimSend {
             let bytes = chunk[..k].to_vec();
             data.advance(k);
             total += k;
-            n.ev(json!({"ev": "wrote", "sid": id, "bytes": bytes}));
+            // `ut`: the first byte ever written on this stream, so that a trace specification can tell the endpoint's control
+            // stream (type 0x00) from its other unidirectional streams without relying on the order in which they were opened
+            let ut = {
+                let s = n.streams.get_mut(&id).expect("stream");
+                if s.tx_first.is_none() && !bytes.is_empty() {
+                    s.tx_first = Some(bytes[0]);
+                }
+                s.tx_first.map(|b| b as i64).unwrap_or(-1)
+            };
+            n.ev(json!({"ev": "wrote", "sid": id, "bytes": bytes, "ut": ut}));
             if !whole {
                 return Poll::Ready(Ok(total));
             }
